@@ -386,8 +386,15 @@ def progress(ctx, w, S, R, reach):
         ev = None
     if ev:
         def ext_call(self, fp, args):
+            import re as _re
+            m_ = _re.search(r"TryFrom<u(\d+)> for u(\d+)>::try_from$", fp)
+            if m_ and len(args) == 1 and isinstance(args[0], int):
+                if args[0] < (1 << int(m_.group(2))):
+                    return ("v", "core::result::Result::Ok", (args[0],))
+                return ("v", "core::result::Result::Err", (("sym", "TryFromIntError"),))
             return ("ext", fp, tuple(args))
         SE.Interp.ext_call = ext_call
+        SE.Interp.truncating_casts = True
         shapes = []
         for base in (38, 48):
             for sel in (2, 5, 7):
@@ -396,6 +403,14 @@ def progress(ctx, w, S, R, reach):
             shapes.append([[base]])
             for ln in range(1, ev.plen + 1):
                 shapes.append([[base] + [2] * (ln - 1)] + [[9]])
+        # sub-parameter / parameter VALUES at the implicit boundaries of narrowing conversions (u16 -> u8)
+        for base in (38, 48):
+            for v in (0, 255, 256, 65535):
+                shapes.append([[base, 5, v], [9]])
+                shapes.append([[base, 2, v, v, v], [9]])
+                shapes.append([[base, 2, 0, v, v, v], [9]])
+                shapes.append([[base], [5], [v], [9]])
+                shapes.append([[base], [2], [v], [v], [v], [9]])
         nh = w.hir(ev.next_fn)
         lits = H.expr_literals(nh["body"])
         for n in H.walk(nh["body"]):
@@ -422,6 +437,7 @@ def progress(ctx, w, S, R, reach):
                 ctx.check(okp, "R5", "sgr:" + key, "SGR parameter shape %s: a round of the decoder returned an operation without consuming a parameter" % key, loc=w.fn_loc(ev.next_fn), sample={"shape": key, "rounds": rounds})
             except H.Unsupported as e:
                 ctx.violation("R5", "sgr:" + key, "SGR parameter shape %s: %s (no progress, an unwrap on a missing parameter, or an out-of-range slice)" % (key, e), loc=w.fn_loc(ev.next_fn))
+    SE.Interp.truncating_casts = False
     # loop classification
     n_it = n_cnt = 0
     uncls = []
